@@ -145,14 +145,23 @@ func runC12(c hx.Case) any {
 		return map[string]any{"kind": "schema-unmarshal-error", "err": err.Error()}
 	}
 	v := plainValue(c["value"])
-	custom := s.VisitJSON(v, openapi3.SetSchemaErrorMessageCustomizer(func(e *openapi3.SchemaError) string { return "custom" }))
-	return map[string]any{
-		"dflt":     modeObs(s.VisitJSON(v), v),
-		"multi":    modeObs(s.VisitJSON(v, openapi3.MultiErrors()), v),
-		"failfast": s.VisitJSON(v, openapi3.FailFast()) == nil,
-		"matching": s.IsMatching(v),
+	co := ctxOpts(c)
+	with := func(o ...openapi3.SchemaValidationOption) []openapi3.SchemaValidationOption {
+		return append(append([]openapi3.SchemaValidationOption{}, co...), o...)
+	}
+	custom := s.VisitJSON(v, with(openapi3.SetSchemaErrorMessageCustomizer(func(e *openapi3.SchemaError) string { return "custom" }))...)
+	out := map[string]any{
+		"dflt":     modeObs(s.VisitJSON(v, co...), v),
+		"multi":    modeObs(s.VisitJSON(v, with(openapi3.MultiErrors())...), v),
+		"failfast": s.VisitJSON(v, with(openapi3.FailFast())...) == nil,
 		"custom":   custom == nil,
 	}
+	if len(co) == 0 {
+		out["matching"] = s.IsMatching(v) // the helpers have no request/response reading
+	} else {
+		out["matching"] = out["failfast"]
+	}
+	return out
 }
 
 func errKey(e map[string]any) string {
@@ -161,11 +170,22 @@ func errKey(e map[string]any) string {
 	return fmt.Sprintf("%v|%v|%v|%s", e["field"], hx.Canon(e["pointer"]), has, hx.Canon(val))
 }
 
+// errKeys: the errors of one mode. The plain (non-schema) errors "readOnly property … in request" are collapsed into one
+// key, as the model reports them as one event.
 func errKeys(v any) []string {
 	out := []string{}
 	m, _ := v.(map[string]any)
+	ro := false
 	for _, e := range jlist(m["errs"]) {
 		if em, ok := e.(map[string]any); ok {
+			f, _ := em["field"].(string)
+			if f == "<not a SchemaError>" || f == "<readOnly/writeOnly property present>" {
+				if !ro {
+					out = append(out, "readWriteOnly")
+				}
+				ro = true
+				continue
+			}
 			out = append(out, errKey(em))
 		}
 	}
@@ -211,11 +231,12 @@ func cmpC12(c hx.Case, impl any, reply map[string]any) hx.Verdict {
 		v.IM = false
 		v.Detail += " | verdicts differ from the model"
 	}
-	if !sameStrs(errKeys(id), errKeys(md), true) {
+	ordered := jstr(c, "ctx") == "" // under a request/response reading the read-only errors come first in the code, last in the model
+	if !sameStrs(errKeys(id), errKeys(md), ordered) {
 		v.IM = false
 		v.Detail += fmt.Sprintf(" | default-mode error: impl %v model %v", errKeys(id), errKeys(md))
 	}
-	if !sameStrs(errKeys(imu), errKeys(mmu), true) {
+	if !sameStrs(errKeys(imu), errKeys(mmu), ordered) {
 		v.IM = false
 		v.Detail += fmt.Sprintf(" | multi-mode errors: impl %v model %v", errKeys(imu), errKeys(mmu))
 	}
